@@ -15,7 +15,7 @@ META = {
             "harmonics.cache.get is partially evaluated (special functions as atoms) on a fresh cache for every key and for every "
             "ordered PAIR of keys (and random longer sequences in the thorough tier), for each parity flag; the value returned for "
             "a key and every slot filled along the way must equal the value a fresh direct lookup gives - so lookup order cannot "
-            "change values and no slot is ever filled with another function. (2) The analytic continuations S1..S5 equal "
+            "change values and no slot is ever filled with another function; the cached alternating sums S-1..S-5 equal their direct evaluation under the same flag (True, False and the generic None). (2) The analytic continuations S1..S5 equal "
             "zeta_k + (-1)^(k-1)/(k-1)! psi^(k-1)(N+1) (frozen textbook table) and the alternating S-k equal 2^(1-k) S_k(N/2 or "
             "(N-1)/2) - S_k(N); the generic-parity branch reduces to the singlet / non-singlet branch at (-1)^N = +1 / -1. (3) "
             "recursive_harmonic_sum adds exactly sum_i (N+i)^-w. (4) The named constants zeta2..zeta5, log2 are the library "
@@ -152,6 +152,28 @@ def run(chk):
             chk.decide(ok, "parity-branch-consistency", fm.qname,
                        f"Sm{k}: the generic-parity branch at (-1)^N = {sign} does not reduce to the is_singlet={flag} branch",
                        where=fm.where, instance=str(flag), how="PIT F_p")
+    # the cached alternating sums equal their direct evaluation under the same flag - True, False and the generic None (the default
+    # of cache.get), where both half-argument sums enter
+    n_alt = 0
+    for k in (1, 2, 3, 4, 5):
+        fm = src.func(f"ekore.harmonics.w{k}.Sm{k}")
+        fs = src.func(f"ekore.harmonics.w{k}.S{k}")
+        kidx = next((i for i, nm in keys.items() if nm == f"Sm{k}"), None)
+        chk.need(kidx is not None, f"no cache key Sm{k}")
+        for flag in (True, False, None):
+            try:
+                (v,), _ = lookup([kidx], flag)
+                want = pe.call(fm.qname, [n, pe.call(fs.qname, [n]), pe.call(fs.qname, [dag.div(dag.sub(n, 1), 2)]),
+                                          pe.call(fs.qname, [dag.div(n, 2)]), flag])
+                ok, info = dag.is_zero_fp([dag.sub(v, want)], chk.seed, 3)
+            except PERaise as e:
+                ok, info = False, {"error": str(e)}
+            n_alt += 1
+            chk.decide(ok, "cached-alternating-sum-is-the-direct-evaluation", fget.qname,
+                       f"get(Sm{k}, is_singlet={flag}) differs from Sm{k}(N, S{k}(N), S{k}((N-1)/2), S{k}(N/2), {flag}) evaluated directly: the cache "
+                       f"and the direct evaluation disagree under the same parity flag", where=fget.where, instance=f"Sm{k},{flag}",
+                       data={"witness": info}, how="PE + PIT F_p")
+    chk.floor("cached alternating sums x flags", n_alt, 15)
     # arguments handed to the half-integer slots by the cache
     for key_name, arg in (("S1h", dag.div(n, 2)), ("S1mh", dag.div(dag.sub(n, 1), 2)), ("S2h", dag.div(n, 2)),
                           ("S2mh", dag.div(dag.sub(n, 1), 2)), ("S3h", dag.div(n, 2)), ("S3mh", dag.div(dag.sub(n, 1), 2))):
